@@ -8,6 +8,9 @@ see the counterexamples recorded in `Props/C02.lean`.
 -/
 namespace Chess
 
+theorem abs_stm (b : Board) : b.abs.stm = b.stm := rfl
+theorem abs_ep (b : Board) : b.abs.ep = b.ep := rfl
+
 theorem pieceOn_of_content {b : Board} (h : Struct b) {s : Sq} {p : Piece} {c : Color}
     (hs : b.content s = some (p, c)) : b.pieceOn s = some p :=
   (pieceOn_some_iff h s p).mpr ((h.content_some_iff s p c).mp hs).1
@@ -51,7 +54,7 @@ theorem applyMoved_eq {p : Pos} {m : Move} {pc : Piece} {c : Color} (hs : p.boar
   unfold applyMoved
   rw [hs]
   cases m.promo with
-  | none => rfl
+  | none => cases pc <;> rfl
   | some q => cases pc <;> rfl
 
 /-- the plain case: nothing but the mover (and the captured man) changes -/
@@ -66,5 +69,230 @@ theorem plain_content {b : Board} {m : Move} {pc : Piece} (hS : b.content m.src 
   | some q =>
     have : pc ≠ .pawn := fun e => by rw [hnp e] at hq; cases hq
     simp only [if_neg this]
+    rfl
+
+/-- what has to be shown about phase 2 of `make_move_new` applied to the mover/captured toggles `base` -/
+def PlaceGoal (T : Tables) (b : Board) (m : Move) (pc : Piece) (base : Board) : Prop :=
+  Core T (mmPlace T b.stm b.ep m pc base) ∧
+  (∀ t, (mmPlace T b.stm b.ep m pc base).content t = (apply b.abs m).board t) ∧
+  (if pc = .pawn ∧ m.promo = none ∧ mmDbl T m then
+     (if T.adjFiles m.dst.getFile &&& T.ranks m.dst.getRank &&& base.pawns &&&
+         base.colorCombined b.stm.other ≠ 0#64 then some m.dst else none)
+   else none) = (norm (apply b.abs m)).ep
+
+theorem mmCastles_not_king (T : Tables) (m : Move) {pc : Piece} (h : pc ≠ .king) : mmCastles T m pc = false := by
+  unfold mmCastles
+  cases pc <;> first | rfl | exact absurd rfl h
+
+theorem place_plain {T : Tables} {b : Board} {m : Move} {pc : Piece} {base : Board}
+    (hS : b.content m.src = some (pc, b.stm)) (hbase : Core T base)
+    (hbc : ∀ t, base.content t = if t = m.dst then some (pc, b.stm) else if t = m.src then none else b.content t)
+    (hm : mmPlace T b.stm b.ep m pc base = base)
+    (hc : isCastle b.abs m = false) (he : isEnPassant b.abs m = false) (hd : isDoubleStep b.abs m = false)
+    (hnp : pc = .pawn → m.promo = none) (hnd : ¬(pc = .pawn ∧ m.promo = none ∧ mmDbl T m)) :
+    PlaceGoal T b m pc base := by
+  unfold PlaceGoal
+  rw [hm, if_neg hnd, norm_apply_ep_none hd]
+  exact ⟨hbase, plain_content hS hc he hnp hbc, rfl⟩
+
+/-- knight, bishop, rook, queen -/
+theorem place_other {T : Tables} {b : Board} {m : Move} {pc : Piece} {base : Board}
+    (hS : b.content m.src = some (pc, b.stm)) (hbase : Core T base)
+    (hbc : ∀ t, base.content t = if t = m.dst then some (pc, b.stm) else if t = m.src then none else b.content t)
+    (hp : pc ≠ .pawn) (hk : pc ≠ .king) : PlaceGoal T b m pc base := by
+  apply place_plain hS hbase hbc
+  · unfold mmPlace
+    rw [if_neg hp, mmCastles_not_king T m hk]
+    rfl
+  · exact isCastle_not_king (show b.abs.board m.src = some (pc, b.stm) from hS) hk
+  · exact isEnPassant_not_pawn (show b.abs.board m.src = some (pc, b.stm) from hS) hp
+  · exact isDoubleStep_not_pawn (show b.abs.board m.src = some (pc, b.stm) from hS) hp
+  · intro e; exact absurd e hp
+  · intro h; exact hp h.1
+
+/-- king moves, castling included -/
+theorem place_king {T : Tables} (hT : TablesOK T) {b : Board} {m : Move} {base : Board}
+    (hpl : pseudoLegal b.abs m = true)
+    (hS : b.content m.src = some (.king, b.stm)) (hne : m.src ≠ m.dst) (hbase : Core T base)
+    (hbc : ∀ t, base.content t = if t = m.dst then some (.king, b.stm) else if t = m.src then none else b.content t) :
+    PlaceGoal T b m .king base := by
+  have hS' : b.abs.board m.src = some (.king, b.abs.stm) := hS
+  have he := isEnPassant_not_pawn hS' (by decide)
+  have hd := isDoubleStep_not_pawn hS' (by decide)
+  have kc := king_cases hT hpl hS' hne
+  simp only [abs_stm, abs_board] at kc
+  rcases kc with ⟨hc, hmc⟩ | ⟨hc, hmc, hD, hrs, hre, hrook, hempty, n1, n2, n3, n4, n5⟩
+  · apply place_plain hS hbase hbc _ hc he hd
+    · intro e; cases e
+    · intro h; cases h.1
+    · unfold mmPlace
+      rw [if_neg (by decide), hmc]
+      rfl
+  · unfold PlaceGoal
+    rw [if_neg (fun h => by cases h.1), norm_apply_ep_none hd]
+    have hm : mmPlace T b.stm b.ep m .king base =
+        (base.xor T .rook (BB.ofSq (mkSq b.stm.backrank (Board.castleRookStart m.dst.getFile))) b.stm).xor T .rook
+          (BB.ofSq (mkSq b.stm.backrank (Board.castleRookEnd m.dst.getFile))) b.stm := by
+      unfold mmPlace
+      rw [if_neg (by decide), hmc]
+      rfl
+    rw [hm]
+    have h1 : base.content (mkSq b.stm.backrank (Board.castleRookStart m.dst.getFile)) = some (.rook, b.stm) := by
+      rw [hbc, if_neg n2, if_neg n1, hrook]
+    obtain ⟨c1, k1⟩ := hbase.remove h1
+    have h2 : (base.xor T .rook (BB.ofSq (mkSq b.stm.backrank (Board.castleRookStart m.dst.getFile))) b.stm).content
+        (mkSq b.stm.backrank (Board.castleRookEnd m.dst.getFile)) = none := by
+      rw [k1, if_neg n5, hbc, if_neg n4, if_neg n3, hempty]
+    obtain ⟨c2, k2⟩ := c1.add .rook b.stm h2
+    refine ⟨c2, ?_, rfl⟩
+    intro t
+    rw [apply_board_castle hc he hrs hre, k2, k1, hbc, applyMoved_eq hS']
+    have hpromo : m.promo = none := by
+      unfold pseudoLegal at hpl
+      rw [hS'] at hpl
+      simp only [Bool.and_eq_true] at hpl
+      exact Option.isNone_iff_eq_none.mp hpl.2.1
+    rw [hpromo]
+    by_cases t1 : t = m.dst
+    · rw [if_pos t1, if_neg (by rw [t1]; exact Ne.symm n4), if_neg (by rw [t1]; exact Ne.symm n2), if_pos t1]
+      rfl
+    · rw [if_neg t1, if_neg t1]
+      by_cases t2 : t = m.src
+      · rw [if_pos t2, if_neg (by rw [t2]; exact Ne.symm n3), if_neg (by rw [t2]; exact Ne.symm n1), if_pos t2]
+      · rw [if_neg t2, if_neg t2]
+        by_cases t3 : t = mkSq b.stm.backrank (Board.castleRookStart m.dst.getFile)
+        · rw [if_pos t3, if_neg (by rw [t3]; exact Ne.symm n5), if_pos t3]
+        · rw [if_neg t3, if_neg t3]
+          by_cases t4 : t = mkSq b.stm.backrank (Board.castleRookEnd m.dst.getFile)
+          · rw [if_pos t4, if_pos t4]; rfl
+          · rw [if_neg t4, if_neg t4]; rfl
+
+/-- pawn moves: push, double push (ep mark), capture, promotion, en passant -/
+theorem place_pawn {T : Tables} (hT : TablesOK T) {b : Board} {m : Move} {base : Board}
+    (hpl : pseudoLegal b.abs m = true) (hep : b.abs.EpSane)
+    (hS : b.content m.src = some (.pawn, b.stm)) (hbase : Core T base)
+    (hbc : ∀ t, base.content t = if t = m.dst then some (.pawn, b.stm) else if t = m.src then none else b.content t) :
+    PlaceGoal T b m .pawn base := by
+  have hS' : b.abs.board m.src = some (.pawn, b.abs.stm) := hS
+  have hc := isCastle_not_king hS' (by decide)
+  have pcs := pawn_cases hT hpl hS' hep
+  simp only [abs_stm, abs_board, abs_ep] at pcs
+  rcases pcs with ⟨he, hd, hnone⟩ | ⟨hq, hdbl, he, hd⟩ | ⟨hq, hndbl, hepm, he, hd, hv, hvict, hD⟩
+  · cases hq : m.promo with
+    | none =>
+      obtain ⟨h1, h2⟩ := hnone hq
+      apply place_plain hS hbase hbc _ hc he hd (fun _ => hq) (fun h => h1 h.2.2)
+      unfold mmPlace
+      rw [if_pos rfl, hq]
+      dsimp only
+      rw [if_neg h1, if_neg h2]
+    | some q =>
+      unfold PlaceGoal
+      rw [if_neg (fun h => by rw [hq] at h; cases h.2.1), norm_apply_ep_none hd]
+      have hm : mmPlace T b.stm b.ep m .pawn base =
+          (base.xor T .pawn (BB.ofSq m.dst) b.stm).xor T q (BB.ofSq m.dst) b.stm := by
+        unfold mmPlace
+        rw [if_pos rfl, hq]
+      rw [hm]
+      have h1 : base.content m.dst = some (.pawn, b.stm) := by rw [hbc, if_pos rfl]
+      obtain ⟨c1, k1⟩ := hbase.remove h1
+      have h2 : (base.xor T .pawn (BB.ofSq m.dst) b.stm).content m.dst = none := by rw [k1, if_pos rfl]
+      obtain ⟨c2, k2⟩ := c1.add q b.stm h2
+      refine ⟨c2, ?_, rfl⟩
+      intro t
+      rw [apply_board_plain hc he, k2, k1, hbc, applyMoved_eq hS', hq]
+      by_cases t1 : t = m.dst
+      · rw [if_pos t1, if_pos t1]; rfl
+      · rw [if_neg t1, if_neg t1, if_neg t1, if_neg t1]; rfl
+  · -- double push
+    have hm : mmPlace T b.stm b.ep m .pawn base = base := by
+      unfold mmPlace
+      rw [if_pos rfl, hq]
+      dsimp only
+      rw [if_pos hdbl]
+    have hcont : ∀ t, base.content t = (apply b.abs m).board t :=
+      plain_content hS hc he (fun _ => hq) hbc
+    unfold PlaceGoal
+    rw [hm, if_pos ⟨rfl, hq, hdbl⟩]
+    refine ⟨hbase, hcont, ?_⟩
+    obtain ⟨n1, n2⟩ := norm_apply_ep_double hd
+    by_cases hex : ∃ s : Sq, s.rank = m.dst.rank ∧ (s.file - m.dst.file).natAbs = 1 ∧
+        (apply b.abs m).board s = some (.pawn, b.abs.stm.other)
+    · rw [n1 hex, if_pos]
+      rw [adjTest_iff hT hbase.toStruct]
+      obtain ⟨s, a1, a2, a3⟩ := hex
+      exact ⟨s, a1, a2, by rw [hcont]; exact a3⟩
+    · rw [n2 hex, if_neg]
+      rw [adjTest_iff hT hbase.toStruct]
+      rintro ⟨s, a1, a2, a3⟩
+      exact hex ⟨s, a1, a2, by rw [← hcont]; exact a3⟩
+  · -- en passant
+    unfold PlaceGoal
+    rw [if_neg (fun h => hndbl h.2.2), norm_apply_ep_none hd]
+    have hm : mmPlace T b.stm b.ep m .pawn base =
+        base.xor T .pawn (BB.ofSq (m.dst.ubackward b.stm)) b.stm.other := by
+      unfold mmPlace
+      rw [if_pos rfl, hq]
+      dsimp only
+      rw [if_neg hndbl, if_pos hepm]
+    rw [hm]
+    have hsf : m.src.file ≠ m.dst.file := ((isEnPassant_pawn hS').mp he).1
+    rw [sq?_eq_some] at hv
+    have n1 : m.dst.ubackward b.stm ≠ m.src := by
+      intro e; rw [e] at hv; exact hsf hv.1
+    have n2 : m.dst.ubackward b.stm ≠ m.dst := by
+      intro e; rw [e, hD] at hvict; cases hvict
+    have h1 : base.content (m.dst.ubackward b.stm) = some (.pawn, b.stm.other) := by
+      rw [hbc, if_neg n2, if_neg n1, hvict]
+    obtain ⟨c1, k1⟩ := hbase.remove h1
+    refine ⟨c1, ?_, rfl⟩
+    intro t
+    rw [apply_board_ep hc he ((sq?_eq_some _ _ _).mpr hv), k1, hbc, applyMoved_eq hS', hq]
+    by_cases t1 : t = m.dst
+    · rw [if_pos t1, if_neg (by rw [t1]; exact Ne.symm n2), if_pos t1]; rfl
+    · rw [if_neg t1, if_neg t1]
+      by_cases t2 : t = m.src
+      · rw [if_pos t2, if_neg (by rw [t2]; exact Ne.symm n1), if_pos t2]
+      · rw [if_neg t2, if_neg t2]
+        by_cases t3 : t = m.dst.ubackward b.stm
+        · rw [if_pos t3, if_pos t3]
+        · rw [if_neg t3, if_neg t3]; rfl
+
+theorem place_refines {T : Tables} (hT : TablesOK T) {b : Board} {m : Move} {pc : Piece} {base : Board}
+    (hpl : pseudoLegal b.abs m = true) (hep : b.abs.EpSane)
+    (hS : b.content m.src = some (pc, b.stm)) (hne : m.src ≠ m.dst) (hbase : Core T base)
+    (hbc : ∀ t, base.content t = if t = m.dst then some (pc, b.stm) else if t = m.src then none else b.content t) :
+    PlaceGoal T b m pc base := by
+  by_cases hp : pc = .pawn
+  · subst hp; exact place_pawn hT hpl hep hS hbase hbc
+  · by_cases hk : pc = .king
+    · subst hk; exact place_king hT hpl hS hne hbase hbc
+    · exact place_other hS hbase hbc hp hk
+
+/-- **`make_move_new` refines `apply`** (C02), and keeps the invariant (C05 sanity part, C08) -/
+theorem make_move_refines {T : Tables} (hT : TablesOK T) {b : Board} (hc : Core T b) {m : Move}
+    (hpl : pseudoLegal b.abs m = true) (hep : b.abs.EpSane) (hrs : b.abs.RightsSane) :
+    ∃ b', b.makeMoveNew T m = some b' ∧ Core T b' ∧ b'.content = (apply b.abs m).board ∧
+      b'.stm = b.stm.other ∧
+      (∀ c, (b'.castleRights c).ks = (apply b.abs m).castleK c ∧
+            (b'.castleRights c).qs = (apply b.abs m).castleQ c) ∧
+      b'.ep = (norm (apply b.abs m)).ep := by
+  obtain ⟨pc, hsrc, hdc⟩ := pseudoLegal_src hpl
+  have hS : b.content m.src = some (pc, b.stm) := hsrc
+  have hne : m.src ≠ m.dst := by
+    intro e
+    apply hdc
+    rw [colorAt_eq_some]
+    exact ⟨pc, by rw [← e]; exact hsrc⟩
+  obtain ⟨b', hmk, hpl', hstm, hcr, hepf⟩ := makeMoveNew_fields T b m pc (pieceOn_of_content hc.toStruct hS)
+  obtain ⟨hbase, hbc⟩ := moveBase_core hc hS hdc
+  obtain ⟨g1, g2, g3⟩ := place_refines hT hpl hep hS hne hbase hbc
+  have hsame : SamePl b' (mmPlace T b.stm b.ep m pc (moveBase T b pc m.src m.dst b.stm (b.pieceOn m.dst))) := hpl'
+  refine ⟨b', hmk, (hsame.core_iff T).mpr g1, ?_, hstm, ?_, ?_⟩
+  · rw [hsame.content_eq]; funext t; exact g2 t
+  · intro d
+    rw [hcr d]
+    exact rights_agree hrs hsrc hdc d
+  · rw [hepf]; exact g3
 
 end Chess
